@@ -62,3 +62,56 @@ Definition obs_pipeline_layout (o : out) : option (list (N * list N)) :=
 (** the variables of group [g] that have a name and a resource kind (all of them, for accepted modules) *)
 Definition named_vars (m : module) (g : N) : list (N * string * res_kind) :=
   flat_map (fun v => match v with (Some n, Some k, b) => [(b, n, k)] | _ => [] end) (group_vars m g).
+
+(** * C13: the push constant ranges of the descriptor [create_pipeline_layout] hands to the device.
+    [stages: PUSH_CONSTANT_STAGES] is resolved like rustc does: the value of the exported constant (no such constant:
+    the module does not compile). A range written with anything else than that constant has no reading here. *)
+Definition obs_pc_ranges (o : out) : option (list (stages * N * N)) :=
+  omapM (fun r => if pr_stages_const r
+                  then option_map (fun s => (s, pr_start r, pr_end r)) (o_pc_stages o)
+                  else None) (o_pc_ranges o).
+
+(** * C14: what the entry point helpers do.
+    [ENTRY_X] used in a helper is the value of the one constant of that name (none or several: rustc rejects). *)
+Definition const_value (o : out) (c : string) : option string :=
+  match filter (fun p => String.eqb (fst p) c) (o_entry_consts o) with
+  | [p] => Some (snd p)
+  | _ => None
+  end.
+
+(** [create_<e>_pipeline(device)]: (function name, label and entry point of the descriptor handed to the device);
+    layout and module are the module's own [create_pipeline_layout(device)] / [create_shader_module(device)]
+    (fixed template text). *)
+Definition obs_compute (c : out_compute) : string * string * string := (cp_fn c, cp_label c, cp_entry_lit c).
+(** [pub const <E>_WORKGROUP_SIZE: [u32; 3]] *)
+Definition obs_workgroup (c : out_compute) : string * (N * N * N) := (cp_wg_const c, cp_wg c).
+
+(** [<e>_entry(targets: [Option<ColorTargetState>; k]) -> FragmentEntry<n>]: (function name, entry point, number of
+    targets); [k <> n] does not type check. *)
+Definition obs_fragment_entry (o : out) (f : out_fentry) : option (string * string * N) :=
+  if fe_targets f =? fe_n f
+  then option_map (fun e => (fe_fn f, e, fe_n f)) (const_value o (fe_const f))
+  else None.
+
+Fixpoint index_of (s : string) (l : list string) (i : N) : option N :=
+  match l with
+  | [] => None
+  | x :: t => if String.eqb x s then Some i else index_of s t (i + 1)
+  end.
+
+Fixpoint str_nodup_b (l : list string) : bool :=
+  match l with
+  | [] => true
+  | x :: t => negb (existsb (String.eqb x) t) && str_nodup_b t
+  end.
+
+(** [<e>_entry(p1: VertexStepMode, .., pk: VertexStepMode) -> VertexEntry<n>]: (function name, entry point, per buffer in
+    order: the struct whose [vertex_buffer_layout] is called and the POSITION of the step mode parameter it is given).
+    Two parameters of one name, an unknown parameter, or [n] different from the number of buffers do not compile. *)
+Definition obs_vertex_entry (o : out) (v : out_ventry) : option (string * string * list (string * N)) :=
+  if str_nodup_b (ve_params v) && (N.of_nat (length (ve_buffers v)) =? ve_n v)
+  then match const_value o (ve_const v), omapM (fun b => option_map (fun i => (fst b, i)) (index_of (snd b) (ve_params v) 0)) (ve_buffers v) with
+       | Some e, Some bs => Some (ve_fn v, e, bs)
+       | _, _ => None
+       end
+  else None.
